@@ -131,6 +131,16 @@ def _mutations(fn: ast.AST, cfg: CFG, name: str, def_node: int, use_node: int, d
         elif tgt in ("update", "|=", "extend") and not iters and not facts:
             v = call.args[0] if call is not None else st.value  # type: ignore[union-attr]
             d.merge(describe(fn, cfg, v, sn, depth - 1))
+        elif tgt in ("update", "|=", "extend") and (call is None or len(call.args) == 1):
+            # bulk addition inside loops / under guards: every element of the argument, once per iteration
+            v = call.args[0] if call is not None else st.value  # type: ignore[union-attr]
+            sub = describe(fn, cfg, v, sn, depth - 1)
+            outer = tuple(reversed(iters))
+            for a in sub.adds:
+                d.adds.append(Add(a.elem, outer + a.iters, a.facts | facts))
+            for b in sorted(sub.bases):
+                d.adds.append(Add("_e", outer + (("_e", b),), facts))
+            d.unknown += sub.unknown
         else:
             d.unknown.append(unparse(st)[:80])
 
